@@ -277,7 +277,7 @@ Proof. exact process_fault_retry_model. Qed.
 Print Assumptions C18_fault_retry_equiv_process_model.
 
 (* I2 the same with the pending set (C09's model): memory = mempool and expiredMempool, updated after
-   the commit *)
+   the commit.  (That EVERY call of a step returns its error holds of the code since 3ddfb4f: S3 below) *)
 Theorem C18_fault_retry_equiv_pending_process : forall p a3fix own n b hs,
   (forall k u, (k < ncalls (pprocess_op p a3fix own n b) (Pending.h_store hs) (hs_mem hs))%nat ->
      attempt qfault (pprocess_op p a3fix own n b) (Fault k u) (Pending.h_store hs) (hs_mem hs) =
@@ -313,7 +313,8 @@ Theorem C18_fault_retry_equiv_xprocess : forall fx p n b st m,
 Proof. exact xprocess_fault_retry. Qed.
 Print Assumptions C18_fault_retry_equiv_xprocess.
 
-(* I5 one batch of a background import (any batch size), one call per block of the batch *)
+(* I5 one batch of a background import (any batch size), one call per block of the batch.  (That EVERY call
+   inside such a step returns its error holds of the code since 9c52567 and 2491e9d: S1, S2 below) *)
 Theorem C18_fault_retry_equiv_import_batch : forall fx p n B w st m, f_import_retry fx = true ->
   (forall k u, (k < ncalls (import_op fx p n B w) st m)%nat ->
      attempt IRetry (import_op fx p n B w) (Fault k u) st m = (st, m, inl IRetry)) /\
@@ -722,3 +723,98 @@ Example C18_partial_reload_example :
         FaultReload.s_cache := Some {| FaultReload.c_addrs := [104; 103; 102; 101; 100]%N; FaultReload.c_mirror := 5 |} |},
      [100; 101; 102; 103; 104]%N).
 Proof. vm_compute. reflexivity. Qed.
+
+(* ==================================================================================================
+   Four storage errors that txmgr took for answers (Ledger/FaultSwallow.v, proofs in FaultSwallowProofs.v).
+   The programs of I1–I11 let every database call return the injected error; one call there stands for all
+   the calls of a step.  Inside the steps four calls did not return theirs until 9c52567 (the put that appends
+   to a block record in an import step: a second, shadowing err), 2491e9d (the read behind existsTxRecord:
+   "no record"), 3ddfb4f (the read of the spenders of an outpoint: "no spender") and 9a3951f (the delete of an
+   unmined-input row in a removal round: "_ ="), found by faulting every distinct call target of the
+   implementation once and comparing the whole database with the fault-free run's.  Each has a switch in
+   [tfixes] (true = the code as it stands); the step is modelled with a fault AT THAT CALL. *)
+Require MW.Ledger.FaultSwallow MW.Ledger.FaultSwallowProofs.
+
+(* S1, S2 an import batch with a fault at ANY call of ANY transaction it inserts — the block-record put and the
+   transaction-record read included —, the code as it stands: the fault does not strike, or the batch reports
+   "retry" with the store exactly as before (the repeated batch is then the batch of the model: I5) *)
+Theorem C18_fault_import_step_calls : forall tf fx p B n st w f,
+  FaultSwallow.t_brec_put tf = true -> FaultSwallow.t_txrec_get tf = true ->
+  FaultSwallow.import_batch_f tf fx p B n st w f = import_batch fx p B n st w \/
+  FaultSwallow.import_batch_f tf fx p B n st w f = (st, IRetry).
+Proof. exact FaultSwallowProofs.import_batch_f_repaired. Qed.
+Print Assumptions C18_fault_import_step_calls.
+
+(*    before 9c52567: wallet 1 (address 9) ready, wallet 2 (address 7) just restored; block 1 (coinbase 1 paying
+      both, transaction 6 paying address 7) processed for wallet 1: its block record lists transaction 1.  The
+      rescan of wallet 2 appends transaction 6 and that put fails: the batch reports success, wallet 2 is ready
+      with 5, the block record still lists transaction 1 only; block 1 is reorganised away and the credit of
+      transaction 6 stays — wallet 2 reports 3 where the run without the fault reports 0 *)
+Theorem C18_import_brec_put_refuted :
+  x_brecs (xs_st FaultSwallowProofs.sw_pre) = [{| br_h := 1; br_bid := 1; br_txs := [1%N] |}] /\
+  snd (FaultSwallowProofs.sw_batch FaultSwallow.t_as_found (Some (6%N, FaultSwallow.ICBrecPut))) = IOk /\
+  status_of (fst (FaultSwallowProofs.sw_batch FaultSwallow.t_as_found (Some (6%N, FaultSwallow.ICBrecPut)))) 2 = Some WReady /\
+  x_brecs (fst (FaultSwallowProofs.sw_batch FaultSwallow.t_as_found (Some (6%N, FaultSwallow.ICBrecPut)))) = [{| br_h := 1; br_bid := 1; br_txs := [1%N] |}] /\
+  x_brecs (fst (FaultSwallowProofs.sw_batch FaultSwallow.t_as_found None)) = [{| br_h := 1; br_bid := 1; br_txs := [1%N; 6%N] |}] /\
+  gross_balance (x_w (fst (FaultSwallowProofs.sw_batch FaultSwallow.t_as_found (Some (6%N, FaultSwallow.ICBrecPut))))) 2%N = 5 /\
+  gross_balance (x_w (FaultSwallowProofs.sw_reorg (fst (FaultSwallowProofs.sw_batch FaultSwallow.t_as_found (Some (6%N, FaultSwallow.ICBrecPut)))))) 2%N = 3 /\
+  gross_balance (x_w (FaultSwallowProofs.sw_reorg (fst (FaultSwallowProofs.sw_batch FaultSwallow.t_as_found None)))) 2%N = 0 /\
+  tip (x_w (FaultSwallowProofs.sw_reorg (fst (FaultSwallowProofs.sw_batch FaultSwallow.t_as_found (Some (6%N, FaultSwallow.ICBrecPut)))))) = (2, 3%N) /\
+  FaultSwallowProofs.sw_batch FaultSwallow.t_repaired (Some (6%N, FaultSwallow.ICBrecPut)) = (xs_st FaultSwallowProofs.sw_pre, IRetry).
+Proof. exact FaultSwallowProofs.import_brec_put_refuted. Qed.
+Print Assumptions C18_import_brec_put_refuted.
+
+(*    before 2491e9d: the read of the record of transaction 1 (recorded for wallet 1) fails during the rescan of
+      wallet 2: "no record", and the block record lists transaction 1 twice *)
+Theorem C18_import_txrec_get_refuted :
+  snd (FaultSwallowProofs.sw_batch FaultSwallow.t_as_found (Some (1%N, FaultSwallow.ICTxrecGet))) = IOk /\
+  x_brecs (fst (FaultSwallowProofs.sw_batch FaultSwallow.t_as_found (Some (1%N, FaultSwallow.ICTxrecGet)))) = [{| br_h := 1; br_bid := 1; br_txs := [1%N; 1%N; 6%N] |}] /\
+  x_brecs (fst (FaultSwallowProofs.sw_batch FaultSwallow.t_as_found None)) = [{| br_h := 1; br_bid := 1; br_txs := [1%N; 6%N] |}] /\
+  FaultSwallowProofs.sw_batch FaultSwallow.t_repaired (Some (1%N, FaultSwallow.ICTxrecGet)) = (xs_st FaultSwallowProofs.sw_pre, IRetry).
+Proof. exact FaultSwallowProofs.import_txrec_get_refuted. Qed.
+Print Assumptions C18_import_txrec_get_refuted.
+
+(* S3 connecting a block (the model with the pending set) with the read of the spenders registered under ANY outpoint
+   failing, the code as it stands: the fault does not strike, or the block fails and nothing is committed (the
+   announcement is refused and repeated: I2) *)
+Theorem C18_fault_connect_spenders_read : forall tf p own n cum s b k,
+  FaultSwallow.t_spenders_get tf = true ->
+  FaultSwallow.p_connect_block_f tf p own n cum s b k = Pending.p_connect_block p own n cum s b \/
+  FaultSwallow.p_connect_block_f tf p own n cum s b k = Pending.PErr (Pending.PE EOther).
+Proof. intros tf p own n cum s b k H. exact (FaultSwallowProofs.p_connect_block_f_repaired tf p own H n cum s b k). Qed.
+Print Assumptions C18_fault_connect_spenders_read.
+
+(*    before 3ddfb4f (the history of C09_example_conflict): the unconfirmed transaction 10 spends the wallet's coin
+      (1,0); block 3' confirms transaction 11, which spends it too.  Without fault transaction 10 is removed as a
+      conflict; with the read of the spenders of (1,0) taken for "no spender" the block is connected and transaction
+      10, its registration as spender and its unmined credit stay in the store *)
+Theorem C18_spenders_get_refuted :
+  FaultSwallowProofs.SpEx.view (Pending.p_connect_block FaultSwallowProofs.SpEx.p (own_of (Pending.q_own FaultSwallowProofs.SpEx.sim))
+     (Pending.q_node FaultSwallowProofs.SpEx.sim) (Pending.ps_unmined FaultSwallowProofs.SpEx.s) FaultSwallowProofs.SpEx.s FaultSwallowProofs.SpEx.b3')
+    = Some ([], [], []) /\
+  FaultSwallowProofs.SpEx.view (FaultSwallowProofs.SpEx.conn FaultSwallow.t_as_found) = Some ([10%N], [(1, 0)%N], [(10, 0)%N]) /\
+  FaultSwallowProofs.SpEx.conn FaultSwallow.t_repaired = Pending.PErr (Pending.PE EOther).
+Proof. exact FaultSwallowProofs.spenders_get_refuted. Qed.
+Print Assumptions C18_spenders_get_refuted.
+
+(* S4 the credit walk of a removal round (removeRelevantCredit: per coin of the wallet the credit row, then the
+   unmined-input row) as a program of the uniform fault model, the code as it stands: a fault at ANY call fails
+   the round with the store as before, and after any faults the repeated round is the round without fault
+   (an instance of G1; the rounds of the model: I10) *)
+Theorem C18_fault_retry_equiv_remove_walk : forall tf ops s m, FaultSwallow.t_rm_input_del tf = true ->
+  (forall k u, (k < ncalls (FaultSwallow.rm_walk_op tf ops) s m)%nat ->
+     attempt tt (FaultSwallow.rm_walk_op tf ops) (Fault k u) s m = (s, m, inl tt)) /\
+  (forall fs, retry tt (FaultSwallow.rm_walk_op tf ops) fs s m = attempt tt (FaultSwallow.rm_walk_op tf ops) NoFault s m).
+Proof. exact FaultSwallowProofs.rm_walk_fault_retry. Qed.
+Print Assumptions C18_fault_retry_equiv_remove_walk.
+
+(*    before 9a3951f: the delete of the unmined-input row of coin 1 fails: the round reports success and the row stays *)
+Theorem C18_rm_input_del_refuted :
+  let s := {| FaultSwallow.rm_credits := [1; 2]%N; FaultSwallow.rm_uinputs := [1; 2]%N |} in
+  attempt tt (FaultSwallow.rm_walk_op FaultSwallow.t_as_found [1; 2]%N) (Fault 2 false) s tt
+    = ({| FaultSwallow.rm_credits := []; FaultSwallow.rm_uinputs := [1%N] |}, tt, inr tt) /\
+  attempt tt (FaultSwallow.rm_walk_op FaultSwallow.t_as_found [1; 2]%N) NoFault s tt
+    = ({| FaultSwallow.rm_credits := []; FaultSwallow.rm_uinputs := [] |}, tt, inr tt) /\
+  attempt tt (FaultSwallow.rm_walk_op FaultSwallow.t_repaired [1; 2]%N) (Fault 2 false) s tt = (s, tt, inl tt).
+Proof. exact FaultSwallowProofs.rm_input_del_refuted. Qed.
+Print Assumptions C18_rm_input_del_refuted.
